@@ -329,3 +329,7 @@ n("C05-n9", "C05", CLIENT, "                for update in proto.read_pkt_seq():\
 b("C05-b11", "C05", REPO_PY, "            or unshallow\n            or getattr(graph_walker, \"client_shallow\", set())\n        ):", "            or unshallow\n        ):", "R05.9")
 n("C05-n10", "C05", REPO_PY, "        if (\n            getattr(graph_walker, \"shallow\", set())\n            or unshallow\n            or getattr(graph_walker, \"client_shallow\", set())\n        ):\n            # TODO: filter the haves commits from iter_shas. the specific",
   "        declared_by_client = getattr(graph_walker, \"client_shallow\", set())\n        if (\n            declared_by_client\n            or getattr(graph_walker, \"shallow\", set())\n            or unshallow\n        ):\n            # TODO: filter the haves commits from iter_shas. the specific")
+BUNDLE = "dulwich/bundle.py"
+b("C04-b12", "C04", BUNDLE, "        self.pack_data.check()\n", "", "R04.4")
+b("C04-b13", "C04", BUNDLE, "        objects = list(PackInflater.for_pack_data(self.pack_data))\n        for git_obj in objects:\n", "        for git_obj in PackInflater.for_pack_data(self.pack_data):\n", "R04.4")
+n("C04-n9", "C04", BUNDLE, "        objects = list(PackInflater.for_pack_data(self.pack_data))\n        for git_obj in objects:\n", "        resolved = tuple(PackInflater.for_pack_data(self.pack_data))\n        for git_obj in resolved:\n")
